@@ -552,7 +552,7 @@ def align_variable_names_with_convention(
                 )
                 renamings[node].add(substitute)
                 for refnode in _get_uses_of(node, partial_tree, source):
-                    renamings[refnode].add(substitute)
+                    renamings[refnode] |= renamings[node]  # A member that keeps its name keeps its uses
             for node in parsing.iter_assignments(partial_tree):
                 name = node.id
                 # Don't rename magic members, don't rename if there is inheritance.
@@ -567,7 +567,7 @@ def align_variable_names_with_convention(
                 )
                 renamings[node].add(substitute)
                 for refnode in _get_uses_of(node, partial_tree, source):
-                    renamings[refnode].add(substitute)
+                    renamings[refnode] |= renamings[node]  # A member that keeps its name keeps its uses
         for partial_tree in funcdefs.copy():
             funcdefs.remove(partial_tree)
             for node in parsing.iter_classdefs(partial_tree):
